@@ -22,6 +22,7 @@ import c01
 import c02
 import stft_val as V
 import gen_mc
+from pydrobert.speech import pre
 import si_model
 from pydrobert.speech import compute, filters, pre, post
 from pydrobert.speech import torch as pt
@@ -118,7 +119,16 @@ def dither_law(run, tier):
     """PreOps law on the torch side: out = x + coeff * G(seed), G independent of x."""
     for n in (0, 1, 5, 1000):
         for coeff in (0.0, 0.5, 2.0):
-            m = pt.PyTorchDither(coeff)
+          # (dither is part of the feature definition, not a training-time regulariser: the module's mode is irrelevant,
+          # and so is whether it was built directly, from a numpy Dither, or scripted)
+          for variant in ("train", "eval", "from_dither_eval", "scripted_eval"):
+            m = pt.PyTorchDither(coeff) if not variant.startswith("from_dither") else pt.PyTorchDither.from_dither(pre.Dither(coeff))
+            if variant == "scripted_eval":
+                with warnings.catch_warnings():
+                    warnings.simplefilter("ignore")
+                    m = torch.jit.script(m)
+            if variant != "train":
+                m = m.eval()
             outs = []
             for x in (torch.zeros(n, dtype=torch.double), torch.arange(n, dtype=torch.double) * 3 - 7):
                 torch.manual_seed(1234)
@@ -127,16 +137,16 @@ def dither_law(run, tier):
             again = (m(torch.zeros(n, dtype=torch.double))).numpy()
             run.evaluations += 1
             if not np.allclose(outs[0], outs[1], rtol=0, atol=1e-9):
-                run.violation({"kind": "torch_dither_depends_on_signal", "n": n, "coeff": coeff})
+                run.violation({"kind": "torch_dither_depends_on_signal", "n": n, "coeff": coeff, "module": variant})
             if not np.array_equal(again, outs[0]):
-                run.violation({"kind": "torch_dither_not_reproducible", "n": n, "coeff": coeff})
+                run.violation({"kind": "torch_dither_not_reproducible", "n": n, "coeff": coeff, "module": variant})
             if coeff == 0.0 and np.any(outs[0] != 0):
                 run.violation({"kind": "torch_dither_coeff0_not_identity", "n": n})
             if coeff:
                 torch.manual_seed(1234)
                 unit = (pt.PyTorchDither(1.0)(torch.zeros(n, dtype=torch.double))).numpy()
                 if not np.allclose(outs[0], coeff * unit, rtol=1e-12, atol=1e-12):
-                    run.violation({"kind": "torch_dither_not_linear_in_coeff", "n": n, "coeff": coeff})
+                    run.violation({"kind": "torch_dither_not_linear_in_coeff", "n": n, "coeff": coeff, "module": variant})
     torch.manual_seed(7)
     z = pt.PyTorchDither(0.5)(torch.zeros(200000, dtype=torch.double)).numpy()
     mean, std = float(z.mean()), float(z.std())
